@@ -502,3 +502,57 @@ Section EmbedProofs.
     rewrite E. field. split; assumption.
   Qed.
 End EmbedProofs.
+
+(* ------------------------------------------------------------------ examples:
+   the hypotheses of the implications above are satisfiable (over Qc) *)
+From Coq Require Import QArith Qcanon.
+Local Close Scope Qc_scope.
+Local Close Scope Q_scope.
+Local Open Scope nat_scope.
+
+Definition is_some {X : Type} (o : option X) : bool := match o with Some _ => true | None => false end.
+
+(* equal base scales (the default: all ones) *)
+Example equal_base_scales_exist :
+  forall a, a < 3 -> vget (@vones Qc _ 3) a = Q2Qc 1.
+Proof. intros a Ha. rewrite vget_vones by exact Ha. reflexivity. Qed.
+
+(* a q = 1, d = 2 isotropic prediction step (unit preconditioners, transition
+   [[1,1],[0,1]], process noise [[1/3,1/2],[1/2,1]]) observed through the TS0
+   selector with a little observation noise: both the isotropic reversal and
+   the reversal of its dense embedding exist *)
+Definition ex_K : @cond Qc :=
+  mkC [[Q2Qc 0; Q2Qc 1]] [[Q2Qc (1#2); Q2Qc (-1#3)]] [[Q2Qc (1#64)]] (vones 2) (vones 1).
+Definition ex_rv : @normal Qc :=
+  mkN [[Q2Qc 1; Q2Qc 2]; [Q2Qc (1#2); Q2Qc (-1)]] [[Q2Qc (1#3); Q2Qc (1#2)]; [Q2Qc (1#2); Q2Qc 1]].
+
+Example revert_embed_hypotheses_satisfiable :
+  is_some (c_revert minv 2 1 2 ex_K ex_rv) = true
+  /\ is_some (c_revert minv (2 * 2) (1 * 2) 1 (embed_cond 2 1 2 ex_K) (embed_normal 2 2 ex_rv)) = true.
+Proof. split; vm_compute; reflexivity. Qed.
+
+Example inverse_of_embedding_hypotheses_satisfiable :
+  is_some (minv 2 (n_cov ex_rv)) = true
+  /\ is_some (minv (2 * 3) (kronI 2 2 3 (n_cov ex_rv))) = true.
+Proof. split; vm_compute; reflexivity. Qed.
+
+(* two scalar blocks with variances 1/4 and 2, residuals 1 and -3: the dense
+   observed marginal is diag(1/4, 2); all whitened RMS values exist and
+   (1^2/(1/4) + 3^2/2)/2 = mean(4, 9/2) *)
+Definition ex_rvD : @normal Qc := mkN [[Q2Qc 0]; [Q2Qc 0]] [[Q2Qc (1#4); Q2Qc 0]; [Q2Qc 0; Q2Qc 2]].
+Definition ex_uD : @mat Qc := [[Q2Qc 1]; [Q2Qc (-3)]].
+Definition ex_rvB (a : nat) : @normal Qc :=
+  match a with O => mkN [[Q2Qc 0]] [[Q2Qc (1#4)]] | _ => mkN [[Q2Qc 0]] [[Q2Qc 2]] end.
+Definition ex_uB (a : nat) : @mat Qc := match a with O => [[Q2Qc 1]] | _ => [[Q2Qc (-3)]] end.
+
+Example mle_scale_split_hypotheses_satisfiable :
+  is_some (whitened_rms2 minv 2 1 ex_rvD ex_uD) = true
+  /\ is_some (whitened_rms2 minv 1 1 (ex_rvB 0) (ex_uB 0)) = true
+  /\ is_some (whitened_rms2 minv 1 1 (ex_rvB 1) (ex_uB 1)) = true
+  /\ (forall a b, a < 2 -> b < 2 ->
+        feqb (mget (n_cov ex_rvD) a b) (if Nat.eqb a b then mget (n_cov (ex_rvB a)) 0 0 else f0) = true).
+Proof.
+  repeat split; try (vm_compute; reflexivity).
+  intros a b Ha Hb.
+  destruct a as [|[|a]]; destruct b as [|[|b]]; try lia; vm_compute; reflexivity.
+Qed.
